@@ -7,6 +7,7 @@ package main
 //	i <decimal>               IntExp.format
 //	g <int part> <mb>         formatGB(int part + mb/1024)
 //	o <n> <deps0> ... <deps n-1>   topoSort of n calls, deps comma separated indices (n = unknown call)
+//	k <layout> <tree>         comments inside a nested collection literal (c09_literals.go)
 //	f <hex text>              a float / int literal text: parse, format, re-parse (oracle only)
 //	r <t|m|v> <hex text>      a threads / mem_gb / vmem_gb literal in a stage (oracle only)
 //	p <tag> <hex src>         a whole program
@@ -266,20 +267,26 @@ func c09GenCases(tier string, r *hx.Rng) {
 			class = "E"
 			g.emptyUsing = true
 		}
-		g.program(r.Intn(4) != 0)
+		if i%10 == 4 || i%10 == 7 {
+			// nested collection literals, comments before elements of every level
+			class = "L"
+			g.literalProgram()
+		} else {
+			g.program(r.Intn(4) != 0)
+		}
 		var slots []int
 		for k, t := range g.toks {
-			if class != "F" || t.elem {
+			if (class != "F" && class != "L") || t.elem {
 				slots = append(slots, k)
 			}
 		}
-		if class != "F" {
+		if class != "F" && class != "L" {
 			slots = append(slots, len(g.toks)) // after the last token
 		}
 		comments := map[int][]string{}
 		var texts []string
 		nc := 1 + r.Intn(8)
-		if r.Intn(5) == 0 {
+		if r.Intn(5) == 0 || (class == "L" && r.Intn(3) == 0) {
 			nc = len(slots) // a comment at every boundary
 		}
 		for k := 0; k < nc && len(slots) > 0; k++ {
@@ -302,7 +309,7 @@ func c09GenCases(tier string, r *hx.Rng) {
 			}
 		}
 		style := r.Intn(2)
-		if class != "F" && len(comments[len(g.toks)]) > 0 {
+		if class != "F" && class != "L" && len(comments[len(g.toks)]) > 0 {
 			// trailing comments: rendered after the last token
 			src := c09Render(r, g.toks, style, comments)
 			for _, c := range comments[len(g.toks)] {
@@ -313,6 +320,36 @@ func c09GenCases(tier string, r *hx.Rng) {
 		}
 		fmt.Fprintf(w, "c %s %s %s\n", class, hx.H(c09Render(r, g.toks, style, comments)), hx.H(strings.Join(texts, "\n")))
 	}
+	// ---- nested literals with comments (class L), a batch of small programs
+	for i := 0; i < scale(300, 3000); i++ {
+		g := &c09Gen{r: r}
+		g.literalProgram()
+		var slots []int
+		for k, t := range g.toks {
+			if t.elem {
+				slots = append(slots, k)
+			}
+		}
+		comments := map[int][]string{}
+		var texts []string
+		nc := 1 + r.Intn(4)
+		all := r.Intn(3) == 0
+		if all {
+			nc = len(slots)
+		}
+		for k := 0; k < nc && len(slots) > 0; k++ {
+			at := slots[r.Intn(len(slots))]
+			if all {
+				at = slots[k]
+			}
+			txt := fmt.Sprintf("# l%d_%d", len(texts), i)
+			comments[at] = append(comments[at], txt)
+			texts = append(texts, txt)
+		}
+		fmt.Fprintf(w, "c L %s %s\n", hx.H(c09Render(r, g.toks, r.Intn(2), comments)), hx.H(strings.Join(texts, "\n")))
+	}
+	// ---- comment placement inside literals, for the model K/ExpComments
+	c09GenLiteralTrees(tier, r)
 	// ---- include graphs
 	for i := 0; i < scale(40, 500); i++ {
 		fmt.Fprintf(w, "n inc %s\n", hx.H(c09IncludeGraph(r, i)))
@@ -635,6 +672,9 @@ func c09Impl(args []string) {
 			fmt.Fprintln(w, hx.H(syntax.VerifC09FormatGB(c09GB(f))))
 		case "o":
 			fmt.Fprintln(w, c09Topo(f))
+		case "k":
+			obs, _, _ := c09LiteralObserve(f)
+			fmt.Fprintln(w, obs)
 		case "p", "u":
 			if f[0] == "u" {
 				fmt.Fprintln(w, "-")
@@ -896,6 +936,22 @@ func c09Oracle(args []string) {
 				return
 			}
 			fmt.Fprintln(w, "ok")
+		case "k":
+			// every comment of the literal is printed exactly once, in order
+			obs, n, src := c09LiteralObserve(f)
+			want := make([]string, n)
+			for i := range want {
+				want[i] = strconv.Itoa(i)
+			}
+			exp := strings.Join(want, ",")
+			if n == 0 {
+				exp = "-"
+			}
+			if obs != exp {
+				fmt.Fprintln(w, "FAIL literal-comments", hx.H(fmt.Sprintf("printed comment ids %s, expected %s, for:\n%s", obs, exp, src)))
+			} else {
+				fmt.Fprintln(w, "ok")
+			}
 		case "f":
 			text := hx.U(f[1])
 			e, err := parser.ParseValExp([]byte(text))
@@ -955,7 +1011,7 @@ func c09Oracle(args []string) {
 			if f[3] != "-" {
 				cs = strings.Split(hx.U(f[3]), "\n")
 			}
-			fmt.Fprintln(w, c09ProgramOracle(hx.U(f[2]), "comments"+f[1], cs, f[1] == "F"))
+			fmt.Fprintln(w, c09ProgramOracle(hx.U(f[2]), "comments"+f[1], cs, f[1] == "F" || f[1] == "L"))
 		case "n":
 			a0, a1, mro, err0, err1 := c09RunIncludes(hx.U(f[2]))
 			switch {
